@@ -1,0 +1,258 @@
+//go:build verif
+
+// Contracts for package action/eth (C15 cross-chain lock/redeem; C02/C03 wrapped-currency deltas; C04 Validate; C18).
+// Comment-only file, read by /verif/govc.
+
+package eth
+
+// ---------------------------------------------------------------- Validate (C04)
+
+//@ func (reportFinalityMintTx).Validate
+//@   implements action.Tx
+//@   ensures result0 ==> len(signedTx.Signatures) == 1 && sigOK(rawBytesOf(signedTx.RawTx), unm(signedTx.Data, "ReportFinality").ValidatorAddress, signedTx.Signatures[0])   // C04.validate
+//@   ensures result0 ==> unm(signedTx.Data, "ReportFinality").VoteIndex >= 0                                   // C18.validated-facts
+//@   exports unm(raw.Data, "ReportFinality").VoteIndex >= 0                                                    // C18.validated-facts
+
+// the Process* wrappers: the validated fact (vote index >= 0) reaches runCheckFinality through the validated token
+//@ func (reportFinalityMintTx).ProcessCheck
+//@   implements action.Tx
+//@ func (reportFinalityMintTx).ProcessDeliver
+//@   implements action.Tx
+//@ func (reportFinalityMintTx).ProcessFee
+//@   implements action.Tx
+
+//@ func (ethLockTx).Validate
+//@   implements action.Tx
+//@   ensures result0 ==> len(signedTx.Signatures) == 1 && sigOK(rawBytesOf(signedTx.RawTx), unm(signedTx.Data, "Lock").Locker, signedTx.Signatures[0])   // C04.validate
+//@   exports len(sigs) == 1                                                                                    // C04.validated-facts
+//@   exports raw.Fee.Price.Currency == ctx.FeePool.feeOpt.FeeCurrency.Name && raw.Fee.Price.Value >= 0         // C04.validated-facts
+//@ func (ethLockTx).ProcessCheck
+//@   implements action.Tx
+//@ func (ethLockTx).ProcessDeliver
+//@   implements action.Tx
+//@ func (ethLockTx).ProcessFee
+//@   implements action.Tx
+
+//@ func (ethRedeemTx).Validate
+//@   implements action.Tx
+//@   ensures result0 ==> len(signedTx.Signatures) == 1 && sigOK(rawBytesOf(signedTx.RawTx), unm(signedTx.Data, "Redeem").Owner, signedTx.Signatures[0])   // C04.validate
+//@   exports len(sigs) == 1                                                                                    // C04.validated-facts
+//@   exports raw.Fee.Price.Currency == ctx.FeePool.feeOpt.FeeCurrency.Name && raw.Fee.Price.Value >= 0         // C04.validated-facts
+//@ func (ethRedeemTx).ProcessCheck
+//@   implements action.Tx
+//@ func (ethRedeemTx).ProcessDeliver
+//@   implements action.Tx
+//@ func (ethRedeemTx).ProcessFee
+//@   implements action.Tx
+
+//@ func (ethERC20LockTx).Validate
+//@   implements action.Tx
+//@   ensures result0 ==> len(signedTx.Signatures) == 1 && sigOK(rawBytesOf(signedTx.RawTx), unm(signedTx.Data, "ERC20Lock").Locker, signedTx.Signatures[0])   // C04.validate
+//@   exports len(sigs) == 1                                                                                    // C04.validated-facts
+//@   exports raw.Fee.Price.Currency == ctx.FeePool.feeOpt.FeeCurrency.Name && raw.Fee.Price.Value >= 0         // C04.validated-facts
+//@ func (ethERC20LockTx).ProcessCheck
+//@   implements action.Tx
+//@ func (ethERC20LockTx).ProcessDeliver
+//@   implements action.Tx
+//@ func (ethERC20LockTx).ProcessFee
+//@   implements action.Tx
+
+//@ func (ethERC20RedeemTx).Validate
+//@   implements action.Tx
+//@   ensures result0 ==> len(signedTx.Signatures) == 1 && sigOK(rawBytesOf(signedTx.RawTx), unm(signedTx.Data, "ERC20Redeem").Owner, signedTx.Signatures[0])   // C04.validate
+//@   exports len(sigs) == 1                                                                                    // C04.validated-facts
+//@   exports raw.Fee.Price.Currency == ctx.FeePool.feeOpt.FeeCurrency.Name && raw.Fee.Price.Value >= 0         // C04.validated-facts
+//@ func (ethERC20RedeemTx).ProcessCheck
+//@   implements action.Tx
+//@ func (ethERC20RedeemTx).ProcessDeliver
+//@   implements action.Tx
+//@ func (ethERC20RedeemTx).ProcessFee
+//@   implements action.Tx
+
+// ---------------------------------------------------------------- vocabulary
+//
+// wethKey(a)        : balance-ledger key of address a in the wrapped-ether currency "ETH"
+// supplyAddr(ctx)  : the address whose "ETH"/token balance is the wrapped-supply counter (governance option TotalSupplyAddr)
+// ongoing(ctx)     : prefix string of the ongoing tracker store
+// ethTrkKey(b)    : store key of the tracker that the external transaction bytes b are recorded under (BytesToHash)
+//@ ghost func ethTrkKey(b bytes) string = trkNameStr(trkNameOf(str(b)))
+//@ ghost func wethKey(a bytes) string = balKey(a, "ETH")
+//@ ghost func ethSupplyAddr(ctx *action.Context) bytes = bytes(ethOpt(ctx.GovernanceStore).TotalSupplyAddr)
+//@ ghost func ethOngoing(ctx *action.Context) string = str(ctx.ETHTrackers.prefixongoing)
+
+// ---------------------------------------------------------------- check_finalty.go: mint / refund / state changes
+
+// mintTokens (property C15: "minted ... in exactly the locked amount and to the account that submitted the lock";
+// "the wrapped-supply counter always equals the wrapped tokens in circulation").
+// The account that submitted the lock is tracker.ProcessOwner (set by runLock from the signer of the Lock tx).
+// (Before fix 83837f6 the code credited oltTx.Locker, the Locker field of whichever report crossed the threshold.)
+//@ func mintTokens
+//@   safety C18
+//@   requires ctxOK(ctx) && trkStorable(tracker)                                                               // C18.ctx
+//@   modifies bal(ctx.Balances), balTotal(ctx.Balances), vHas(ctx.Balances.State), vVal(ctx.Balances.State), tracker.State, ctx.ETHTrackers.prefix, trkHas(ctx.ETHTrackers), trkType(ctx.ETHTrackers), trkState(ctx.ETHTrackers), trkOwner(ctx.ETHTrackers), trkTx(ctx.ETHTrackers), trkTo(ctx.ETHTrackers), trkN(ctx.ETHTrackers), trkYes(ctx.ETHTrackers), trkNo(ctx.ETHTrackers), trkWitAt(ctx.ETHTrackers), trkSlot(ctx.ETHTrackers), vHas(ctx.ETHTrackers.state), vVal(ctx.ETHTrackers.state)
+//@   ensures err == nil && wethKey(tracker.ProcessOwner) != wethKey(ethSupplyAddr(ctx)) ==> bal(ctx.Balances)[wethKey(tracker.ProcessOwner)] == old(bal(ctx.Balances))[wethKey(tracker.ProcessOwner)] + ethLockAmt(str(tracker.SignedETHTx))   // C15.mint-to-lock-submitter
+//@   ensures err == nil ==> forall k string :: k != wethKey(tracker.ProcessOwner) && k != wethKey(ethSupplyAddr(ctx)) ==> bal(ctx.Balances)[k] == old(bal(ctx.Balances))[k]   // C15.mint-to-lock-submitter
+//@   ensures err == nil && wethKey(tracker.ProcessOwner) != wethKey(ethSupplyAddr(ctx)) ==> bal(ctx.Balances)[wethKey(ethSupplyAddr(ctx))] == old(bal(ctx.Balances))[wethKey(ethSupplyAddr(ctx))] + ethLockAmt(str(tracker.SignedETHTx))   // C15.supply-counter
+//@   ensures err == nil ==> balTotal(ctx.Balances)["ETH"] == old(balTotal(ctx.Balances))["ETH"] + 2 * ethLockAmt(str(tracker.SignedETHTx)) && ethLockAmt(str(tracker.SignedETHTx)) >= 0   // C02.mint-delta
+//@   ensures forall c string :: c != "ETH" ==> balTotal(ctx.Balances)[c] == old(balTotal(ctx.Balances))[c]     // C02.mint-delta
+//@   ensures forall k string :: bal(ctx.Balances)[k] >= old(bal(ctx.Balances))[k]                              // C03.no-debit
+//@   ensures err == nil ==> tracker.State == trkStReleased() && trkRecorded(ctx.ETHTrackers, ethOngoing(ctx), tracker)   // C15.mint-released
+
+// refundTokens (property C15: a failed redeem is refunded to the account that was debited, in the debited amount;
+// the supply counter moves by the same delta). The code reads req.Amount BEFORE it checks the error of ParseRedeem
+// (check_finalty.go:244-247): a parse failure is a nil dereference, hence the C18 precondition.
+//@ func refundTokens
+//@   safety C18
+//@   requires ctxOK(ctx) && trkStorable(tracker)                                                               // C18.ctx
+//@   requires ethRedeemParses(str(tracker.SignedETHTx), ethOpt(ctx.GovernanceStore).ContractABI)   // C18.refund-parse
+//@   modifies bal(ctx.Balances), balTotal(ctx.Balances), vHas(ctx.Balances.State), vVal(ctx.Balances.State), tracker.State, ctx.ETHTrackers.prefix, trkHas(ctx.ETHTrackers), trkType(ctx.ETHTrackers), trkState(ctx.ETHTrackers), trkOwner(ctx.ETHTrackers), trkTx(ctx.ETHTrackers), trkTo(ctx.ETHTrackers), trkN(ctx.ETHTrackers), trkYes(ctx.ETHTrackers), trkNo(ctx.ETHTrackers), trkWitAt(ctx.ETHTrackers), trkSlot(ctx.ETHTrackers), vHas(ctx.ETHTrackers.state), vVal(ctx.ETHTrackers.state)
+//@   ensures err == nil && wethKey(tracker.ProcessOwner) != wethKey(ethSupplyAddr(ctx)) ==> bal(ctx.Balances)[wethKey(tracker.ProcessOwner)] == old(bal(ctx.Balances))[wethKey(tracker.ProcessOwner)] + ethRedeemAmt(str(tracker.SignedETHTx), ethOpt(ctx.GovernanceStore).ContractABI)   // C15.refund-to-owner
+//@   ensures err == nil && wethKey(tracker.ProcessOwner) != wethKey(ethSupplyAddr(ctx)) ==> bal(ctx.Balances)[wethKey(ethSupplyAddr(ctx))] == old(bal(ctx.Balances))[wethKey(ethSupplyAddr(ctx))] + ethRedeemAmt(str(tracker.SignedETHTx), ethOpt(ctx.GovernanceStore).ContractABI)   // C15.supply-counter
+//@   ensures err == nil ==> forall k string :: k != wethKey(tracker.ProcessOwner) && k != wethKey(ethSupplyAddr(ctx)) ==> bal(ctx.Balances)[k] == old(bal(ctx.Balances))[k]   // C15.refund-to-owner
+//@   ensures err == nil ==> balTotal(ctx.Balances)["ETH"] == old(balTotal(ctx.Balances))["ETH"] + 2 * ethRedeemAmt(str(tracker.SignedETHTx), ethOpt(ctx.GovernanceStore).ContractABI)   // C02.refund-delta
+//@   ensures forall c string :: c != "ETH" ==> balTotal(ctx.Balances)[c] == old(balTotal(ctx.Balances))[c]     // C02.refund-delta
+//@   ensures forall k string :: bal(ctx.Balances)[k] >= old(bal(ctx.Balances))[k]                              // C03.no-debit
+//@   ensures err == nil ==> tracker.State == trkStFailed() && trkRecorded(ctx.ETHTrackers, ethOngoing(ctx), tracker)   // C15.refund-failed-state
+
+// state-only transitions: no ledger is touched
+//@ func failedLock
+//@   safety C18
+//@   requires ctxOK(ctx) && trkStorable(tracker)                                                               // C18.ctx
+//@   modifies tracker.State, ctx.ETHTrackers.prefix, trkHas(ctx.ETHTrackers), trkType(ctx.ETHTrackers), trkState(ctx.ETHTrackers), trkOwner(ctx.ETHTrackers), trkTx(ctx.ETHTrackers), trkTo(ctx.ETHTrackers), trkN(ctx.ETHTrackers), trkYes(ctx.ETHTrackers), trkNo(ctx.ETHTrackers), trkWitAt(ctx.ETHTrackers), trkSlot(ctx.ETHTrackers), vHas(ctx.ETHTrackers.state), vVal(ctx.ETHTrackers.state)
+//@   ensures err == nil ==> tracker.State == trkStFailed() && trkRecorded(ctx.ETHTrackers, ethOngoing(ctx), tracker)   // C15.lock-failed-state
+
+//@ func burnTokens
+//@   safety C18
+//@   requires ctxOK(ctx) && trkStorable(tracker)                                                               // C18.ctx
+//@   modifies tracker.State, ctx.ETHTrackers.prefix, trkHas(ctx.ETHTrackers), trkType(ctx.ETHTrackers), trkState(ctx.ETHTrackers), trkOwner(ctx.ETHTrackers), trkTx(ctx.ETHTrackers), trkTo(ctx.ETHTrackers), trkN(ctx.ETHTrackers), trkYes(ctx.ETHTrackers), trkNo(ctx.ETHTrackers), trkWitAt(ctx.ETHTrackers), trkSlot(ctx.ETHTrackers), vHas(ctx.ETHTrackers.state), vVal(ctx.ETHTrackers.state)
+//@   ensures err == nil ==> tracker.State == trkStReleased() && trkRecorded(ctx.ETHTrackers, ethOngoing(ctx), tracker)   // C15.redeem-released
+
+// `*ethTx.To()` at check_finalty.go:321 is a nil dereference when the tracker's transaction is a contract creation
+// (To() == nil); runERC20Reddem never looks at To(), so nothing rules this out: the C18 nil-deref obligation fails.
+//@ func burnERC20Tokens
+//@   safety C18
+//@   requires ctxOK(ctx) && trkStorable(tracker)                                                               // C18.ctx
+//@   modifies tracker.State, ctx.ETHTrackers.prefix, trkHas(ctx.ETHTrackers), trkType(ctx.ETHTrackers), trkState(ctx.ETHTrackers), trkOwner(ctx.ETHTrackers), trkTx(ctx.ETHTrackers), trkTo(ctx.ETHTrackers), trkN(ctx.ETHTrackers), trkYes(ctx.ETHTrackers), trkNo(ctx.ETHTrackers), trkWitAt(ctx.ETHTrackers), trkSlot(ctx.ETHTrackers), vHas(ctx.ETHTrackers.state), vVal(ctx.ETHTrackers.state)
+//@   ensures err == nil ==> tracker.State == trkStReleased() && trkRecorded(ctx.ETHTrackers, ethOngoing(ctx), tracker)  // C15.redeem-released
+
+// (no `safety C18` here: `*ethTx.To()` at check_finalty.go:348 cannot be nil for a tracker created by runERC20Lock,
+// which dereferences the same To() first, but To() is an external getter the engine cannot relate to the bytes)
+//@ func mintERC20tokens
+//@   requires ctxOK(ctx) && trkStorable(tracker)                                                               // C18.ctx
+//@   modifies bal(ctx.Balances), balTotal(ctx.Balances), vHas(ctx.Balances.State), vVal(ctx.Balances.State), tracker.State, ctx.ETHTrackers.prefix, trkHas(ctx.ETHTrackers), trkType(ctx.ETHTrackers), trkState(ctx.ETHTrackers), trkOwner(ctx.ETHTrackers), trkTx(ctx.ETHTrackers), trkTo(ctx.ETHTrackers), trkN(ctx.ETHTrackers), trkYes(ctx.ETHTrackers), trkNo(ctx.ETHTrackers), trkWitAt(ctx.ETHTrackers), trkSlot(ctx.ETHTrackers), vHas(ctx.ETHTrackers.state), vVal(ctx.ETHTrackers.state)
+//@   ensures err == nil ==> forall k string :: bal(ctx.Balances)[k] != old(bal(ctx.Balances))[k] ==> exists c string :: k == balKey(tracker.ProcessOwner, c) || k == balKey(ethSupplyAddr(ctx), c)   // C15.mint-to-lock-submitter
+//@   ensures err == nil ==> exists c string :: balTotal(ctx.Balances)[c] == old(balTotal(ctx.Balances))[c] + 2 * erc20LockAmt(str(tracker.SignedETHTx)) && (forall d string :: d != c ==> balTotal(ctx.Balances)[d] == old(balTotal(ctx.Balances))[d])   // C02.mint-delta
+//@   ensures forall k string :: bal(ctx.Balances)[k] >= old(bal(ctx.Balances))[k]                              // C03.no-debit
+//@   ensures err == nil ==> tracker.State == trkStReleased() && trkRecorded(ctx.ETHTrackers, ethOngoing(ctx), tracker)  // C15.mint-released
+
+// ---------------------------------------------------------------- check_finalty.go: the report handler body
+//
+// ethRn(tx) : store key of the tracker named in the decoded ReportFinality message
+// Property C15, clause by clause (o = ongoing store, n = the tracker named in the report, "stored" = the ghost record):
+//  * mint-only-on-crossing / refund-only-on-crossing: a balance changes only if the stored tracker was neither
+//    finalized nor failed before, and is finalized (lock) resp. failed (redeem) after this report: "at most once,
+//    only after more than two thirds"; together with later-reports-noop: once the stored tracker is finalized or
+//    failed, a report changes nothing, so the crossing transaction is the only one that mints/refunds.
+//  * vote-own-slot-once: a report changes a recorded vote slot only if (a) it is the slot named by VoteIndex, (b) that
+//    slot belongs to the witness that signed the report (ValidatorAddress, C04) and (c) the slot was empty: votes of
+//    non-witnesses, votes in somebody else's slot and repeated votes change no slot. (The AddVote contract also proves
+//    that a repeated vote is refused with an error; the handler-level restatement `filled slot ==> !result0` timed out.)
+//  * erc20-failure-vote-recorded (`claims`): an accepted first "no" report of a witness is recorded. The code drops it for
+//    ERC20 lock / ERC20 redeem trackers when it is the report that crosses the failure threshold: the Failed branch only
+//    handles ProcessTypeLock and ProcessTypeRedeem and otherwise returns true WITHOUT saving the tracker, so such a
+//    tracker never becomes Failed and an ERC20 redeem (already debited by runERC20Reddem) is never refunded.
+//@ ghost func ethRn(tx action.RawTx) string = trkNameStr(unm(tx.Data, "ReportFinality").TrackerName)
+// the stored (ghost) record of tracker n in the ongoing store: finalized / failed / type / owner / signed tx
+//@ ghost func ethFinS(ctx *action.Context, n string) bool = 3 * trkYes(ctx.ETHTrackers)[ethOngoing(ctx)][n] > 2 * trkN(ctx.ETHTrackers)[ethOngoing(ctx)][n]
+//@ ghost func ethFailS(ctx *action.Context, n string) bool = 3 * trkNo(ctx.ETHTrackers)[ethOngoing(ctx)][n] > 2 * trkN(ctx.ETHTrackers)[ethOngoing(ctx)][n]
+//@ ghost func ethTypS(ctx *action.Context, n string) int = trkType(ctx.ETHTrackers)[ethOngoing(ctx)][n]
+//@ ghost func ethOwnS(ctx *action.Context, n string) bytes = bytes(trkOwner(ctx.ETHTrackers)[ethOngoing(ctx)][n])
+//@ ghost func ethTxS(ctx *action.Context, n string) string = trkTx(ctx.ETHTrackers)[ethOngoing(ctx)][n]
+
+//@ func runCheckFinality
+//@   safety C18
+//@   requires ctxOK(ctx)                                                                                    // C18.ctx
+//@   requires unm(tx.Data, "ReportFinality").VoteIndex >= 0                                                    // C18.validated-facts
+//@   assumes forall n string :: trkHas(ctx.ETHTrackers)[ethOngoing(ctx)][n] && trkType(ctx.ETHTrackers)[ethOngoing(ctx)][n] == trkPtRedeem() ==> ethRedeemParses(trkTx(ctx.ETHTrackers)[ethOngoing(ctx)][n], ethOpt(ctx.GovernanceStore).ContractABI)   // A-REDEEM-TX runRedeem only records a redeem tracker after ParseRedeem accepted its transaction under the ETH option, which is only written at genesis
+//@   modifies bal(ctx.Balances), balTotal(ctx.Balances), vHas(ctx.Balances.State), vVal(ctx.Balances.State), ctx.ETHTrackers.prefix, trkHas(ctx.ETHTrackers), trkType(ctx.ETHTrackers), trkState(ctx.ETHTrackers), trkOwner(ctx.ETHTrackers), trkTx(ctx.ETHTrackers), trkTo(ctx.ETHTrackers), trkN(ctx.ETHTrackers), trkYes(ctx.ETHTrackers), trkNo(ctx.ETHTrackers), trkWitAt(ctx.ETHTrackers), trkSlot(ctx.ETHTrackers), vHas(ctx.ETHTrackers.state), vVal(ctx.ETHTrackers.state)
+//@   ensures result0 ==> old(trkHas(ctx.ETHTrackers))[ethOngoing(ctx)][ethRn(tx)]                                    // C15.report-needs-tracker
+//@   ensures result0 && (exists k string :: bal(ctx.Balances)[k] != old(bal(ctx.Balances))[k]) ==> !old(ethFinS(ctx, ethRn(tx))) && !old(ethFailS(ctx, ethRn(tx)))   // C15.mint-only-on-crossing
+//@   ensures result0 && (exists k string :: bal(ctx.Balances)[k] != old(bal(ctx.Balances))[k]) ==> (old(ethTypS(ctx, ethRn(tx))) == trkPtLock() || old(ethTypS(ctx, ethRn(tx))) == trkPtLockERC()) && ethFinS(ctx, ethRn(tx)) || old(ethTypS(ctx, ethRn(tx))) == trkPtRedeem() && ethFailS(ctx, ethRn(tx))   // C15.mint-only-on-crossing
+//@   ensures result0 && (old(ethFinS(ctx, ethRn(tx))) || old(ethFailS(ctx, ethRn(tx)))) ==> bal(ctx.Balances) == old(bal(ctx.Balances)) && balTotal(ctx.Balances) == old(balTotal(ctx.Balances)) && trkYes(ctx.ETHTrackers) == old(trkYes(ctx.ETHTrackers)) && trkNo(ctx.ETHTrackers) == old(trkNo(ctx.ETHTrackers)) && trkState(ctx.ETHTrackers) == old(trkState(ctx.ETHTrackers)) && trkHas(ctx.ETHTrackers) == old(trkHas(ctx.ETHTrackers))   // C15.later-reports-noop
+//@   ensures result0 && old(ethTypS(ctx, ethRn(tx))) == trkPtLock() ==> forall k string :: k != wethKey(old(ethOwnS(ctx, ethRn(tx)))) && k != wethKey(ethSupplyAddr(ctx)) ==> bal(ctx.Balances)[k] == old(bal(ctx.Balances))[k]   // C15.mint-to-lock-submitter
+//@   ensures result0 && old(ethTypS(ctx, ethRn(tx))) == trkPtLock() && !old(ethFinS(ctx, ethRn(tx))) && !old(ethFailS(ctx, ethRn(tx))) && ethFinS(ctx, ethRn(tx)) ==> balTotal(ctx.Balances)["ETH"] == old(balTotal(ctx.Balances))["ETH"] + 2 * ethLockAmt(old(ethTxS(ctx, ethRn(tx)))) && trkState(ctx.ETHTrackers)[ethOngoing(ctx)][ethRn(tx)] == trkStReleased()   // C15.mint-exact-amount
+//@   ensures result0 && old(ethTypS(ctx, ethRn(tx))) == trkPtLock() && !old(ethFinS(ctx, ethRn(tx))) && !old(ethFailS(ctx, ethRn(tx))) && ethFinS(ctx, ethRn(tx)) && wethKey(old(ethOwnS(ctx, ethRn(tx)))) != wethKey(ethSupplyAddr(ctx)) ==> bal(ctx.Balances)[wethKey(ethSupplyAddr(ctx))] == old(bal(ctx.Balances))[wethKey(ethSupplyAddr(ctx))] + ethLockAmt(old(ethTxS(ctx, ethRn(tx))))   // C15.supply-counter
+//@   ensures result0 && old(ethTypS(ctx, ethRn(tx))) == trkPtRedeem() && !old(ethFinS(ctx, ethRn(tx))) && !old(ethFailS(ctx, ethRn(tx))) && ethFailS(ctx, ethRn(tx)) && wethKey(old(ethOwnS(ctx, ethRn(tx)))) != wethKey(ethSupplyAddr(ctx)) ==> bal(ctx.Balances)[wethKey(old(ethOwnS(ctx, ethRn(tx))))] == old(bal(ctx.Balances))[wethKey(old(ethOwnS(ctx, ethRn(tx))))] + ethRedeemAmt(old(ethTxS(ctx, ethRn(tx))), ethOpt(ctx.GovernanceStore).ContractABI) && bal(ctx.Balances)[wethKey(ethSupplyAddr(ctx))] == old(bal(ctx.Balances))[wethKey(ethSupplyAddr(ctx))] + ethRedeemAmt(old(ethTxS(ctx, ethRn(tx))), ethOpt(ctx.GovernanceStore).ContractABI)   // C15.refund-exact
+//@   ensures result0 && old(ethTypS(ctx, ethRn(tx))) == trkPtRedeem() ==> forall k string :: k != wethKey(old(ethOwnS(ctx, ethRn(tx)))) && k != wethKey(ethSupplyAddr(ctx)) ==> bal(ctx.Balances)[k] == old(bal(ctx.Balances))[k]   // C15.refund-exact
+//@   ensures result0 && old(ethTypS(ctx, ethRn(tx))) == trkPtRedeem() && !old(ethFinS(ctx, ethRn(tx))) && !old(ethFailS(ctx, ethRn(tx))) && ethFailS(ctx, ethRn(tx)) ==> balTotal(ctx.Balances)["ETH"] == old(balTotal(ctx.Balances))["ETH"] + 2 * ethRedeemAmt(old(ethTxS(ctx, ethRn(tx))), ethOpt(ctx.GovernanceStore).ContractABI) && trkState(ctx.ETHTrackers)[ethOngoing(ctx)][ethRn(tx)] == trkStFailed()   // C15.refund-exact
+//@   ensures result0 ==> forall i int :: 0 <= i && i < old(trkN(ctx.ETHTrackers))[ethOngoing(ctx)][ethRn(tx)] && trkSlot(ctx.ETHTrackers)[ethOngoing(ctx)][ethRn(tx)][i] != old(trkSlot(ctx.ETHTrackers))[ethOngoing(ctx)][ethRn(tx)][i] ==> i == unm(tx.Data, "ReportFinality").VoteIndex   // C15.vote-own-slot-once
+//@   ensures result0 && unm(tx.Data, "ReportFinality").VoteIndex < old(trkN(ctx.ETHTrackers))[ethOngoing(ctx)][ethRn(tx)] && trkSlot(ctx.ETHTrackers)[ethOngoing(ctx)][ethRn(tx)][unm(tx.Data, "ReportFinality").VoteIndex] != old(trkSlot(ctx.ETHTrackers))[ethOngoing(ctx)][ethRn(tx)][unm(tx.Data, "ReportFinality").VoteIndex] ==> old(trkWitAt(ctx.ETHTrackers))[ethOngoing(ctx)][ethRn(tx)][unm(tx.Data, "ReportFinality").VoteIndex] == str(unm(tx.Data, "ReportFinality").ValidatorAddress)   // C15.vote-own-slot-once
+//@   ensures result0 && unm(tx.Data, "ReportFinality").VoteIndex < old(trkN(ctx.ETHTrackers))[ethOngoing(ctx)][ethRn(tx)] && trkSlot(ctx.ETHTrackers)[ethOngoing(ctx)][ethRn(tx)][unm(tx.Data, "ReportFinality").VoteIndex] != old(trkSlot(ctx.ETHTrackers))[ethOngoing(ctx)][ethRn(tx)][unm(tx.Data, "ReportFinality").VoteIndex] ==> old(trkSlot(ctx.ETHTrackers))[ethOngoing(ctx)][ethRn(tx)][unm(tx.Data, "ReportFinality").VoteIndex] == 0   // C15.vote-own-slot-once
+//@   ensures result0 && unm(tx.Data, "ReportFinality").VoteIndex < old(trkN(ctx.ETHTrackers))[ethOngoing(ctx)][ethRn(tx)] && trkSlot(ctx.ETHTrackers)[ethOngoing(ctx)][ethRn(tx)][unm(tx.Data, "ReportFinality").VoteIndex] != old(trkSlot(ctx.ETHTrackers))[ethOngoing(ctx)][ethRn(tx)][unm(tx.Data, "ReportFinality").VoteIndex] ==> trkSlot(ctx.ETHTrackers)[ethOngoing(ctx)][ethRn(tx)][unm(tx.Data, "ReportFinality").VoteIndex] == (unm(tx.Data, "ReportFinality").Success ? 1 : 2)   // C15.vote-own-slot-once
+//@   claims result0 && (old(ethTypS(ctx, ethRn(tx))) == trkPtRedeemERC() || old(ethTypS(ctx, ethRn(tx))) == trkPtLockERC()) && !old(ethFinS(ctx, ethRn(tx))) && !old(ethFailS(ctx, ethRn(tx))) && !unm(tx.Data, "ReportFinality").Success && unm(tx.Data, "ReportFinality").VoteIndex < old(trkN(ctx.ETHTrackers))[ethOngoing(ctx)][ethRn(tx)] && old(trkWitAt(ctx.ETHTrackers))[ethOngoing(ctx)][ethRn(tx)][unm(tx.Data, "ReportFinality").VoteIndex] == str(unm(tx.Data, "ReportFinality").ValidatorAddress) && old(trkSlot(ctx.ETHTrackers))[ethOngoing(ctx)][ethRn(tx)][unm(tx.Data, "ReportFinality").VoteIndex] == 0 ==> trkSlot(ctx.ETHTrackers)[ethOngoing(ctx)][ethRn(tx)][unm(tx.Data, "ReportFinality").VoteIndex] == 2   // C15.erc20-failure-vote-recorded
+//@   ensures forall k string :: bal(ctx.Balances)[k] >= old(bal(ctx.Balances))[k]                              // C03.no-debit
+//@   ensures old(ethTypS(ctx, ethRn(tx))) != trkPtLockERC() ==> forall c string :: c != "ETH" ==> balTotal(ctx.Balances)[c] == old(balTotal(ctx.Balances))[c]   // C02.other-currencies-untouched
+
+// ---------------------------------------------------------------- ext_redeem.go
+//
+// runRedeem (property C15: "for a redeem, the tokens are debited before the tracker exists"; "the same external
+// transaction can never back two trackers"; the supply counter moves with the debit). The handler runs inside one
+// transaction session, so "before" is: on every accepting path both debits have happened, the tracker is recorded, and
+// its name was absent from all three stores on entry. The tracker name is ethcommon.BytesToHash(ETHTxn): ethTrkKey.
+//@ func runRedeem
+//@   safety C18
+//@   requires ctxOK(ctx)                                                                                    // C18.ctx
+//@   modifies bal(ctx.Balances), balTotal(ctx.Balances), vHas(ctx.Balances.State), vVal(ctx.Balances.State), ctx.ETHTrackers.prefix, trkHas(ctx.ETHTrackers), trkType(ctx.ETHTrackers), trkState(ctx.ETHTrackers), trkOwner(ctx.ETHTrackers), trkTx(ctx.ETHTrackers), trkTo(ctx.ETHTrackers), trkN(ctx.ETHTrackers), trkYes(ctx.ETHTrackers), trkNo(ctx.ETHTrackers), trkWitAt(ctx.ETHTrackers), trkSlot(ctx.ETHTrackers), vHas(ctx.ETHTrackers.state), vVal(ctx.ETHTrackers.state)
+//@   ensures result0 ==> !old(trkHas(ctx.ETHTrackers))[trkPfx(ctx.ETHTrackers, trkPxOngoing())][ethTrkKey(unm(tx.Data, "Redeem").ETHTxn)] && !old(trkHas(ctx.ETHTrackers))[trkPfx(ctx.ETHTrackers, trkPxPassed())][ethTrkKey(unm(tx.Data, "Redeem").ETHTxn)] && !old(trkHas(ctx.ETHTrackers))[trkPfx(ctx.ETHTrackers, trkPxFailed())][ethTrkKey(unm(tx.Data, "Redeem").ETHTxn)] && trkHas(ctx.ETHTrackers)[ethOngoing(ctx)][ethTrkKey(unm(tx.Data, "Redeem").ETHTxn)] && trkType(ctx.ETHTrackers)[ethOngoing(ctx)][ethTrkKey(unm(tx.Data, "Redeem").ETHTxn)] == trkPtRedeem() && trkState(ctx.ETHTrackers)[ethOngoing(ctx)][ethTrkKey(unm(tx.Data, "Redeem").ETHTxn)] == trkStNew() && trkOwner(ctx.ETHTrackers)[ethOngoing(ctx)][ethTrkKey(unm(tx.Data, "Redeem").ETHTxn)] == str(unm(tx.Data, "Redeem").Owner) && trkTx(ctx.ETHTrackers)[ethOngoing(ctx)][ethTrkKey(unm(tx.Data, "Redeem").ETHTxn)] == str(unm(tx.Data, "Redeem").ETHTxn)   // C15.one-tracker-per-tx
+//@   ensures result0 ==> forall i int :: 0 <= i && i < trkN(ctx.ETHTrackers)[ethOngoing(ctx)][ethTrkKey(unm(tx.Data, "Redeem").ETHTxn)] ==> trkSlot(ctx.ETHTrackers)[ethOngoing(ctx)][ethTrkKey(unm(tx.Data, "Redeem").ETHTxn)][i] == 0   // C15.new-tracker-no-votes
+//@   ensures result0 && wethKey(unm(tx.Data, "Redeem").Owner) != wethKey(ethSupplyAddr(ctx)) ==> bal(ctx.Balances)[wethKey(unm(tx.Data, "Redeem").Owner)] == old(bal(ctx.Balances))[wethKey(unm(tx.Data, "Redeem").Owner)] - ethRedeemAmt(str(unm(tx.Data, "Redeem").ETHTxn), ethOpt(ctx.GovernanceStore).ContractABI) && bal(ctx.Balances)[wethKey(ethSupplyAddr(ctx))] == old(bal(ctx.Balances))[wethKey(ethSupplyAddr(ctx))] - ethRedeemAmt(str(unm(tx.Data, "Redeem").ETHTxn), ethOpt(ctx.GovernanceStore).ContractABI)   // C15.redeem-debited-with-tracker
+//@   ensures result0 ==> old(bal(ctx.Balances))[wethKey(unm(tx.Data, "Redeem").Owner)] >= ethRedeemAmt(str(unm(tx.Data, "Redeem").ETHTxn), ethOpt(ctx.GovernanceStore).ContractABI) && ethRedeemAmt(str(unm(tx.Data, "Redeem").ETHTxn), ethOpt(ctx.GovernanceStore).ContractABI) >= 0 && ethRedeemParses(str(unm(tx.Data, "Redeem").ETHTxn), ethOpt(ctx.GovernanceStore).ContractABI)   // C15.redeem-debited-with-tracker
+//@   ensures result0 ==> forall k string :: k != wethKey(unm(tx.Data, "Redeem").Owner) && k != wethKey(ethSupplyAddr(ctx)) ==> bal(ctx.Balances)[k] == old(bal(ctx.Balances))[k]   // C03.only-signer-and-supply-debited
+//@   ensures result0 ==> balTotal(ctx.Balances)["ETH"] == old(balTotal(ctx.Balances))["ETH"] - 2 * ethRedeemAmt(str(unm(tx.Data, "Redeem").ETHTxn), ethOpt(ctx.GovernanceStore).ContractABI)   // C02.redeem-delta
+//@   ensures forall c string :: c != "ETH" ==> balTotal(ctx.Balances)[c] == old(balTotal(ctx.Balances))[c]     // C02.redeem-delta
+
+// ---------------------------------------------------------------- ext_lock.go
+//
+// runLock (property C15: "the same external transaction can never back two trackers": the name is absent from the
+// ongoing and the passed store, a failed predecessor is deleted first; the recorded process owner is the Locker that
+// signed the Lock transaction; nothing is minted at lock time).
+// C18: `ethTx.To().Bytes()` at ext_lock.go:175 dereferences To(), which is nil for a contract-creation transaction:
+// the nil-deref obligation below fails (To() is an external getter with an arbitrary, possibly nil, result).
+//@ func runLock
+//@   safety C18
+//@   requires ctxOK(ctx) && lock != nil                                                                     // C18.ctx
+//@   modifies ctx.ETHTrackers.prefix, trkHas(ctx.ETHTrackers), trkType(ctx.ETHTrackers), trkState(ctx.ETHTrackers), trkOwner(ctx.ETHTrackers), trkTx(ctx.ETHTrackers), trkTo(ctx.ETHTrackers), trkN(ctx.ETHTrackers), trkYes(ctx.ETHTrackers), trkNo(ctx.ETHTrackers), trkWitAt(ctx.ETHTrackers), trkSlot(ctx.ETHTrackers), vHas(ctx.ETHTrackers.state), vVal(ctx.ETHTrackers.state)
+//@   ensures result0 ==> !old(trkHas(ctx.ETHTrackers))[trkPfx(ctx.ETHTrackers, trkPxOngoing())][ethTrkKey(lock.ETHTxn)] && !old(trkHas(ctx.ETHTrackers))[trkPfx(ctx.ETHTrackers, trkPxPassed())][ethTrkKey(lock.ETHTxn)] && trkHas(ctx.ETHTrackers)[ethOngoing(ctx)][ethTrkKey(lock.ETHTxn)] && trkType(ctx.ETHTrackers)[ethOngoing(ctx)][ethTrkKey(lock.ETHTxn)] == trkPtLock() && trkState(ctx.ETHTrackers)[ethOngoing(ctx)][ethTrkKey(lock.ETHTxn)] == trkStNew() && trkOwner(ctx.ETHTrackers)[ethOngoing(ctx)][ethTrkKey(lock.ETHTxn)] == str(lock.Locker) && trkTx(ctx.ETHTrackers)[ethOngoing(ctx)][ethTrkKey(lock.ETHTxn)] == str(lock.ETHTxn)   // C15.one-tracker-per-tx
+//@   ensures result0 ==> forall i int :: 0 <= i && i < trkN(ctx.ETHTrackers)[ethOngoing(ctx)][ethTrkKey(lock.ETHTxn)] ==> trkSlot(ctx.ETHTrackers)[ethOngoing(ctx)][ethTrkKey(lock.ETHTxn)][i] == 0   // C15.new-tracker-no-votes
+//@   ensures bal(ctx.Balances) == old(bal(ctx.Balances)) && balTotal(ctx.Balances) == old(balTotal(ctx.Balances))   // C02.lock-mints-nothing
+
+// ---------------------------------------------------------------- ext_ERC20Lock.go
+//
+// runERC20Lock. Property C15 ("the same external transaction can never back two trackers") is the `claims` clause:
+// unlike runLock the code has NO existence check at all, it overwrites an ongoing tracker of the same name (resetting
+// its votes) and, after the first tracker was released and moved to the passed store, accepts the same Ethereum
+// transaction again, so the same ERC20 lock can be minted twice. The `ensures` clause says what the code does.
+// C18 (both obligations fail, genuinely): `*ethTx.To()` at ext_ERC20Lock.go:142 is a nil dereference for a
+// contract-creation transaction; `err.Error()` at ext_ERC20Lock.go:160 is called with err == nil whenever
+// VerfiyERC20Lock returns (false, nil), i.e. for every ERC20 transfer whose receiver is not the OneLedger contract.
+//@ func runERC20Lock
+//@   safety C18
+//@   requires ctxOK(ctx)                                                                                    // C18.ctx
+//@   modifies ctx.ETHTrackers.prefix, trkHas(ctx.ETHTrackers), trkType(ctx.ETHTrackers), trkState(ctx.ETHTrackers), trkOwner(ctx.ETHTrackers), trkTx(ctx.ETHTrackers), trkTo(ctx.ETHTrackers), trkN(ctx.ETHTrackers), trkYes(ctx.ETHTrackers), trkNo(ctx.ETHTrackers), trkWitAt(ctx.ETHTrackers), trkSlot(ctx.ETHTrackers), vHas(ctx.ETHTrackers.state), vVal(ctx.ETHTrackers.state)
+//@   claims result0 ==> !old(trkHas(ctx.ETHTrackers))[trkPfx(ctx.ETHTrackers, trkPxOngoing())][ethTrkKey(unm(tx.Data, "ERC20Lock").ETHTxn)] && !old(trkHas(ctx.ETHTrackers))[trkPfx(ctx.ETHTrackers, trkPxPassed())][ethTrkKey(unm(tx.Data, "ERC20Lock").ETHTxn)] && trkHas(ctx.ETHTrackers)[ethOngoing(ctx)][ethTrkKey(unm(tx.Data, "ERC20Lock").ETHTxn)] && trkType(ctx.ETHTrackers)[ethOngoing(ctx)][ethTrkKey(unm(tx.Data, "ERC20Lock").ETHTxn)] == trkPtLockERC() && trkTx(ctx.ETHTrackers)[ethOngoing(ctx)][ethTrkKey(unm(tx.Data, "ERC20Lock").ETHTxn)] == str(unm(tx.Data, "ERC20Lock").ETHTxn)   // C15.one-tracker-per-tx
+//@   ensures result0 ==> trkHas(ctx.ETHTrackers)[ethOngoing(ctx)][ethTrkKey(unm(tx.Data, "ERC20Lock").ETHTxn)] && trkType(ctx.ETHTrackers)[ethOngoing(ctx)][ethTrkKey(unm(tx.Data, "ERC20Lock").ETHTxn)] == trkPtLockERC() && trkState(ctx.ETHTrackers)[ethOngoing(ctx)][ethTrkKey(unm(tx.Data, "ERC20Lock").ETHTxn)] == trkStNew() && trkOwner(ctx.ETHTrackers)[ethOngoing(ctx)][ethTrkKey(unm(tx.Data, "ERC20Lock").ETHTxn)] == str(unm(tx.Data, "ERC20Lock").Locker) && trkTx(ctx.ETHTrackers)[ethOngoing(ctx)][ethTrkKey(unm(tx.Data, "ERC20Lock").ETHTxn)] == str(unm(tx.Data, "ERC20Lock").ETHTxn)   // C15.erc20-lock-as-coded
+//@   ensures bal(ctx.Balances) == old(bal(ctx.Balances)) && balTotal(ctx.Balances) == old(balTotal(ctx.Balances))   // C02.lock-mints-nothing
+
+// ---------------------------------------------------------------- ext_ERC20redeem.go
+//
+// runERC20Reddem. Property C15 is the `claims` clause (as for runRedeem). The code differs in two ways: it does not look
+// at the failed store before creating the tracker, and it IGNORES the error of the final Set (ext_ERC20redeem.go:189
+// assigns err and returns true): on that path both debits are kept and no tracker exists.
+//@ func runERC20Reddem
+//@   safety C18
+//@   requires ctxOK(ctx)                                                                                    // C18.ctx
+//@   modifies bal(ctx.Balances), balTotal(ctx.Balances), vHas(ctx.Balances.State), vVal(ctx.Balances.State), ctx.ETHTrackers.prefix, trkHas(ctx.ETHTrackers), trkType(ctx.ETHTrackers), trkState(ctx.ETHTrackers), trkOwner(ctx.ETHTrackers), trkTx(ctx.ETHTrackers), trkTo(ctx.ETHTrackers), trkN(ctx.ETHTrackers), trkYes(ctx.ETHTrackers), trkNo(ctx.ETHTrackers), trkWitAt(ctx.ETHTrackers), trkSlot(ctx.ETHTrackers), vHas(ctx.ETHTrackers.state), vVal(ctx.ETHTrackers.state)
+//@   claims result0 ==> trkHas(ctx.ETHTrackers)[ethOngoing(ctx)][ethTrkKey(unm(tx.Data, "ERC20Redeem").ETHTxn)] && trkType(ctx.ETHTrackers)[ethOngoing(ctx)][ethTrkKey(unm(tx.Data, "ERC20Redeem").ETHTxn)] == trkPtRedeemERC() && trkOwner(ctx.ETHTrackers)[ethOngoing(ctx)][ethTrkKey(unm(tx.Data, "ERC20Redeem").ETHTxn)] == str(unm(tx.Data, "ERC20Redeem").Owner) && trkTx(ctx.ETHTrackers)[ethOngoing(ctx)][ethTrkKey(unm(tx.Data, "ERC20Redeem").ETHTxn)] == str(unm(tx.Data, "ERC20Redeem").ETHTxn)   // C15.redeem-debited-with-tracker
+//@   claims result0 ==> !old(trkHas(ctx.ETHTrackers))[trkPfx(ctx.ETHTrackers, trkPxOngoing())][ethTrkKey(unm(tx.Data, "ERC20Redeem").ETHTxn)] && !old(trkHas(ctx.ETHTrackers))[trkPfx(ctx.ETHTrackers, trkPxPassed())][ethTrkKey(unm(tx.Data, "ERC20Redeem").ETHTxn)] && !old(trkHas(ctx.ETHTrackers))[trkPfx(ctx.ETHTrackers, trkPxFailed())][ethTrkKey(unm(tx.Data, "ERC20Redeem").ETHTxn)]   // C15.one-tracker-per-tx
+//@   ensures result0 ==> forall k string :: bal(ctx.Balances)[k] != old(bal(ctx.Balances))[k] ==> exists c string :: k == balKey(unm(tx.Data, "ERC20Redeem").Owner, c) || k == balKey(ethSupplyAddr(ctx), c)   // C03.only-signer-and-supply-debited
+//@   ensures result0 ==> exists c string :: balTotal(ctx.Balances)[c] == old(balTotal(ctx.Balances))[c] - 2 * erc20RedeemAmt(str(unm(tx.Data, "ERC20Redeem").ETHTxn), ethOpt(ctx.GovernanceStore).ERCContractABI) && (forall d string :: d != c ==> balTotal(ctx.Balances)[d] == old(balTotal(ctx.Balances))[d])   // C02.redeem-delta
